@@ -6,6 +6,7 @@ import (
 	"fmt"
 	"os"
 	"path"
+	"regexp"
 	"sort"
 	"strings"
 	"time"
@@ -20,8 +21,11 @@ import (
 // or one key of the unit-level enumeration.
 type KeyCase struct {
 	Params *progen.KeyParams `json:"params,omitempty"`
-	Key    *string           `json:"key,omitempty"`
-	Key2   *string           `json:"key2,omitempty"`
+	// Zombie: the job (key) whose first attempt dies, is retried, and then
+	// turns out to be still alive (attempt phase)
+	Zombie string  `json:"zombie,omitempty"`
+	Key    *string `json:"key,omitempty"`
+	Key2   *string `json:"key2,omitempty"`
 }
 
 // keyAtoms is the alphabet of the unit-level key enumeration: every key is a
@@ -264,6 +268,94 @@ func evalKeys(d progen.KeyParams) (viol []string, res *Result, probes int, note 
 	return viol, res, probes, ""
 }
 
+// evalAttempts: the first attempt of job dies from a signal (a transient
+// failure), mrp restarts automatically, and once the second attempt has
+// started the first one - still alive - completes with stale outputs in its
+// own directory and under its own journal name.  "Every notification is
+// attributed to exactly the ... attempt that wrote it": the two attempts have
+// distinct directories, the stale completion changes nothing, the pipestance
+// completes with the denoted values and only the dead job ran twice.
+func evalAttempts(d progen.KeyParams, job string) (viol []string, note string) {
+	p := progen.KeyFlow(d)
+	if p == nil {
+		return nil, "inexpressible"
+	}
+	ref, err := progen.Interpret(p)
+	if err != nil || len(ref.Unspecified) > 0 {
+		return nil, "unspecified"
+	}
+	run := func() []string {
+		var v []string
+		Run(p, Schedule{}, Options{MrpPid: 7171, Retries: 1, Zombie: true,
+			Fault: &Fault{Job: job, Kind: "vanish", Times: 1}, Inspect: func(r *Result) {
+				if r.Err != "" {
+					v = append(v, "run error: "+firstLine(r.Err))
+					return
+				}
+				if os.Getenv("VERIF_DEBUG") != "" {
+					fmt.Println(p.MRO())
+					for _, e := range r.Events {
+						fmt.Printf("  ev %d %s %s %s\n", e.Iter, e.Kind, e.Job, e.Info)
+					}
+					fmt.Println("state", r.State, "stalled", r.Stalled, "iter", r.Iter, "nodes", r.NodeStates)
+				}
+				v = append(v, r.ZombieProblems...)
+				if r.Retried != 1 || r.Zombies != 1 {
+					v = append(v, fmt.Sprintf("harness: %d automatic restart(s), %d stale completion(s), expected 1 and 1", r.Retried, r.Zombies))
+					return
+				}
+				if r.State != "complete" {
+					v = append(v, "pipestance ended "+r.State+" after the automatic restart: "+r.FatalFq+": "+firstLine(r.FatalLog))
+					return
+				}
+				if r.TopOuts == nil {
+					v = append(v, "no readable outputs after the automatic restart")
+				} else if df := progen.EqSlack(ref.TopOuts, r.TopOuts, "outs"); df != "" {
+					v = append(v, "a stale completion of the replaced attempt changed the result: "+df)
+				}
+				attempts := map[string]int{}
+				for _, j := range r.Jobs {
+					attempts[j.Key]++
+				}
+				for k, n := range attempts {
+					want := 1
+					if k == job {
+						want = 2
+					}
+					if n != want {
+						v = append(v, fmt.Sprintf("job %s was executed %d time(s), expected %d (the first attempt of %s died and came back)", k, n, want, job))
+					}
+				}
+				sort.Strings(v)
+				for i := range v {
+					v[i] = uniqRe.ReplaceAllString(strings.ReplaceAll(v[i], r.Dir, "<scratch>"), "-u<uniq>")
+				}
+			}})
+		return v
+	}
+	viol = run()
+	if len(viol) > 0 {
+		if v2 := run(); strings.Join(v2, "\n") != strings.Join(viol, "\n") {
+			return nil, "nonreproducible: " + viol[0]
+		}
+	}
+	return viol, ""
+}
+
+var uniqRe = regexp.MustCompile(`-u[0-9a-f]{10}`)
+
+// attemptSig: signature of an attempt-phase violation.  A literal null
+// element of an array of collections gets a fork of its own (the known
+// defect nest:literal-null-element-runs-a-job); the ids of the forks of such a
+// call are not the same after a re-attach, so a restart stalls.
+func attemptSig(d progen.KeyParams, v string) string {
+	if d.Ragged != "" && !d.OuterDyn && progen.RaggedHasNull(d.OuterSel) &&
+		(strings.Contains(v, "pipestance ended running after the automatic restart") || strings.Contains(v, "job(s) executed") || strings.Contains(v, "was executed")) {
+		return "C11:attempt:nest:literal-null-element:fork-ids-change-on-restart"
+	}
+	return "C11:attempt:" + strings.TrimPrefix(keySig(v), "C11:")
+}
+
 // KeyCheck is the main of C11.
 func KeyCheck() {
 	r := ev.New("C11", "exploration")
@@ -278,7 +370,11 @@ func KeyCheck() {
 		r.Eval("replay")
 		r.Sample(c)
 		var viol []string
-		if c.Params != nil {
+		if c.Params != nil && c.Zombie != "" {
+			v, note := evalAttempts(*c.Params, c.Zombie)
+			viol = v
+			fmt.Println("note:", note)
+		} else if c.Params != nil {
 			v, res, _, note := evalKeys(*c.Params)
 			viol = v
 			fmt.Println("note:", note)
@@ -296,6 +392,9 @@ func KeyCheck() {
 			sg := keySig(v)
 			if c.Params != nil && literalNullJob(*c.Params, v) {
 				sg = "C11:nest:literal-null-element-runs-a-job"
+			}
+			if c.Params != nil && c.Zombie != "" {
+				sg = attemptSig(*c.Params, v)
 			}
 			r.Report(ev.Finding{Sig: sg, What: v, Case: c})
 		}
@@ -363,6 +462,44 @@ func KeyCheck() {
 			continue
 		}
 		r.Eval(d.String())
+		if len(viol) == 0 && res != nil {
+			// attempt phase: the first, a middle and the last job of the run
+			// (thorough: every job)
+			var jobKeys []string
+			seenKey := map[string]bool{}
+			for _, j := range res.Jobs {
+				if !seenKey[j.Key] {
+					seenKey[j.Key] = true
+					jobKeys = append(jobKeys, j.Key)
+				}
+			}
+			if !r.Thorough() && len(jobKeys) > 3 {
+				jobKeys = []string{jobKeys[0], jobKeys[len(jobKeys)/2], jobKeys[len(jobKeys)-1]}
+			}
+			for _, jk := range jobKeys {
+				if r.Expired("attempt phase") {
+					break
+				}
+				av, anote := evalAttempts(d, jk)
+				r.Eval(d.String() + " zombie " + jk)
+				r.Add("attempt_cases", 1)
+				if anote != "" {
+					r.Outcome("attempt:" + strings.SplitN(anote, ":", 2)[0])
+					if strings.HasPrefix(anote, "nonreproducible") {
+						r.Inconclusive(d.String() + " zombie " + jk + ": " + anote)
+					}
+					continue
+				}
+				if len(av) == 0 {
+					r.Outcome("attempt:ok")
+				}
+				for _, v := range av {
+					d := d
+					r.Outcome("attempt:violation")
+					r.Report(ev.Finding{Sig: attemptSig(d, v), What: d.String() + " zombie " + jk + ": " + v, Case: KeyCase{Params: &d, Zombie: jk}})
+				}
+			}
+		}
 		if len(viol) == 0 {
 			r.Outcome("ok")
 			if wi%97 == 0 && res != nil {
